@@ -35,6 +35,20 @@ pub fn make_scenario(prop: &str, run_seed: u64, thorough: bool) -> Scenario {
     let mut w = root.split(label("workload"));
     let mut s = root.split(label("schedule-cfg"));
     let params = if thorough { generate::GenParams::thorough() } else { generate::GenParams::quick() };
+    // abandoned sub-queries (`Expr::Race`) in a share of the programs; drawn
+    // from a stream of its own so that the other streams are unchanged
+    {
+        let mut rr = root.split(label("race"));
+        // (not for C03: its quantifier excludes cancellation, and an
+        // abandoned sub-query is one)
+        let on = match prop {
+            "C05" => rr.chance(1, 3),
+            "C01" | "C02" | "C07" => rr.chance(1, 6),
+            _ => false,
+        };
+        generate::RACE.with(|c| c.set(on));
+    }
+    let race_on = generate::RACE.with(std::cell::Cell::get);
     match prop {
         "C01" | "C03" => {
             let (program, ops) = if w.chance(3, 10) {
@@ -76,9 +90,10 @@ pub fn make_scenario(prop: &str, run_seed: u64, thorough: bool) -> Scenario {
                     yield_every: if s.chance(1, 4) { Some(s.below(3) as usize) } else { None },
                     sched,
                     cyclic: false,
-                    check_c03: true,
+                    check_c03: !race_on,
                     crash_check: false,
                     sched_seed: run_seed,
+                    no_values: false,
                 },
             }
         }
@@ -113,9 +128,10 @@ pub fn make_scenario(prop: &str, run_seed: u64, thorough: bool) -> Scenario {
                     yield_every: if s.chance(1, 4) { Some(s.below(3) as usize) } else { None },
                     sched,
                     cyclic: false,
-                    check_c03: true,
+                    check_c03: !race_on,
                     crash_check: false,
                     sched_seed: run_seed,
+                    no_values: false,
                 },
             }
         }
@@ -150,6 +166,7 @@ pub fn make_scenario(prop: &str, run_seed: u64, thorough: bool) -> Scenario {
                     check_c03: false,
                     crash_check: false,
                     sched_seed: run_seed,
+                    no_values: false,
                 },
             }
         }
@@ -157,8 +174,11 @@ pub fn make_scenario(prop: &str, run_seed: u64, thorough: bool) -> Scenario {
             let mut params = params.clone();
             params.allow_ex = false;
             params.max_nodes = params.max_nodes.min(10);
-            let kind = w.below(5);
-            let program = if kind == 4 || w.chance(2, 5) { generate::gen_program_tfc(&mut w) } else { generate::gen_program(&mut w, &params) };
+            // 5, 6: concurrent requests in free mode with one of them
+            // cancelled / an executor panicking; values are not judged there
+            let kind = w.below(7);
+            let conc_free = kind >= 5;
+            let program = if kind == 4 || w.chance(if conc_free { 4 } else { 2 }, 5) { generate::gen_program_tfc(&mut w) } else { generate::gen_program(&mut w, &params) };
             let ops = if kind == 4 {
                 generate::gen_pass_panic_history(&mut w, &program)
             } else {
@@ -179,7 +199,7 @@ pub fn make_scenario(prop: &str, run_seed: u64, thorough: bool) -> Scenario {
                     // firewall-repair and backward-projection passes
                     // (concurrent phases only in strict mode: the coverage
                     // model attributes a repair pass to one request at a time)
-                    strict: kind == 1 || w.chance(1, 2),
+                    strict: !conc_free && (kind == 1 || w.chance(1, 2)),
                     yield_every: if s.chance(1, 3) { Some(s.below(2) as usize) } else { None },
                     // await hooks only: a future is never dropped at a point
                     // where the real code cannot be suspended
@@ -192,6 +212,7 @@ pub fn make_scenario(prop: &str, run_seed: u64, thorough: bool) -> Scenario {
                     check_c03: false,
                     crash_check: false,
                     sched_seed: run_seed,
+                    no_values: conc_free,
                 },
             }
         }
@@ -215,6 +236,7 @@ pub fn make_scenario(prop: &str, run_seed: u64, thorough: bool) -> Scenario {
                     check_c03: false,
                     crash_check: false,
                     sched_seed: run_seed,
+                    no_values: false,
                 },
             }
         }
@@ -248,9 +270,10 @@ pub fn make_scenario(prop: &str, run_seed: u64, thorough: bool) -> Scenario {
                         SchedCfg::Uniform { num: 1, den: 5, k: 2, site_salt: None, preempt: false }
                     },
                     cyclic: false,
-                    check_c03: true,
+                    check_c03: !race_on,
                     crash_check: prop == "C08",
                     sched_seed: run_seed,
+                    no_values: false,
                 },
             }
         }
@@ -316,6 +339,30 @@ fn replay_of(prop: &str, seed: u64, sc: &Scenario, out: &Outcome) -> ReplayFile 
 }
 
 static CURRENT_RUN: std::sync::Mutex<Option<(Instant, String)>> = std::sync::Mutex::new(None);
+
+/// the failure line to print if the process is aborted during the run in
+/// flight (a panic that cannot unwind, e.g. in a destructor during unwinding)
+static CURRENT_ABORT: std::sync::Mutex<Option<Vec<u8>>> = std::sync::Mutex::new(None);
+
+extern "C" fn on_sigabrt(_sig: libc::c_int) {
+    // best effort: the process is going down anyway
+    if let Ok(g) = CURRENT_ABORT.try_lock() {
+        if let Some(line) = g.as_ref() {
+            unsafe {
+                libc::write(1, line.as_ptr().cast(), line.len());
+            }
+        }
+    }
+    unsafe {
+        libc::_exit(0);
+    }
+}
+
+fn install_abort_reporter() {
+    unsafe {
+        libc::signal(libc::SIGABRT, on_sigabrt as usize);
+    }
+}
 
 fn start_watchdog() {
     let limit = simkit::env_u64("VERIF_STUCK_S", 20);
@@ -402,6 +449,7 @@ fn child(args: &[String]) -> i32 {
 
 fn batch(args: &[String]) {
     start_watchdog();
+    install_abort_reporter();
     let prop = arg(args, "--prop").expect("--prop");
     let seed: u64 = arg(args, "--seed").and_then(|s| s.parse().ok()).unwrap_or(1);
     let worker: u64 = arg(args, "--worker").and_then(|s| s.parse().ok()).unwrap_or(0);
@@ -523,9 +571,15 @@ fn batch(args: &[String]) {
             };
             *CURRENT_RUN.lock().unwrap() =
                 Some((Instant::now(), serde_json::json!({"type": "failure", "i": i, "replay": rf}).to_string()));
+            let mut rf = rf;
+            rf.class = "abort".into();
+            rf.message = "the process was aborted during this run (a panic that cannot unwind, or abort() inside the code under test)".into();
+            *CURRENT_ABORT.lock().unwrap() =
+                Some(format!("\n{}\n", serde_json::json!({"type": "failure", "i": i, "replay": rf})).into_bytes());
         }
         let out = run_scenario(&sc, None);
         *CURRENT_RUN.lock().unwrap() = None;
+        *CURRENT_ABORT.lock().unwrap() = None;
         runs += 1;
         if out.fault_fired {
             if let Some(f) = fault_name(&sc) {
@@ -610,6 +664,19 @@ fn replay(args: &[String]) -> i32 {
             );
             std::process::exit(if reproduced { 0 } else { 3 });
         });
+    }
+    {
+        let reproduced = rf.class == "abort";
+        *CURRENT_ABORT.lock().unwrap() = Some(
+            format!(
+                "\n{}\n",
+                serde_json::json!({"type": "replay", "file": path, "expected_class": rf.class,
+                    "class": "abort", "message": "the process was aborted during the replay (a panic that cannot unwind, or abort() inside the code under test)",
+                    "known": null, "reproduced": reproduced, "exposed": null})
+            )
+            .into_bytes(),
+        );
+        install_abort_reporter();
     }
     let out = if matches!(rf.scenario.cfg.storage, Storage::Real { .. }) {
         // the backends' own threads are not scheduled: several attempts
